@@ -25,12 +25,10 @@ def spec(tier):
         for cap in (1, 2, 3):
             progs.append((k, cap, "*" * L))
     # longer programs: fixed puts (keys symbolic) around free operations
-    mixed = ["PPP*F"] if tier == "quick" else ["PP*PP", "PPP*F", "P*P*P", "PPPP*F", "PP*PPF", "PPP**"]
+    mixed = ["PPP*F"] if tier == "quick" else ["PP*PP", "PPP*F", "P*P*P", "PPPP*F"]
     for k in (0, 1, 2, 3):
         for ops in mixed:
             progs.append((k, 2, ops))
-        if tier != "quick":
-            progs.append((k, 3, "PPPP*P"))
     for kind, maxi, ops in progs:
         fpr = dict(FPR)
         if kind:
